@@ -27,7 +27,7 @@ theorem countIn_append_fresh (cons l : List Addr) (a : Addr) (hn : cons.Nodup) (
         intro x hx
         have : x ≠ a := fun e => hnd.1 (e ▸ hx)
         simp [this]
-      simp only [hl, or_true, decide_true, if_true, List.length_cons, false_or, decide_false, Bool.false_eq_true, if_false]
+      simp only [hl, or_true, decide_true, if_true, List.length_cons, decide_false, Bool.false_eq_true, if_false]
       omega
     · have hca : c ≠ a := fun e => hnd.1 (e ▸ har)
       have ih' := ih hnd.2 har
@@ -147,28 +147,27 @@ theorem voteSpec_once (released : Bool) (acc : List Addr) (evs : List (Addr × L
 theorem sigHas_iff (l : List (Addr × Bytes)) (a : Addr) : sigHas l a = true ↔ a ∈ l.map (·.1) := by
   unfold sigHas
   simp only [List.any_eq_true, beq_iff_eq, List.mem_map]
-  constructor
-  · rintro ⟨p, hp, rfl⟩; exact ⟨p, hp, rfl⟩
-  · rintro ⟨p, hp, rfl⟩; exact ⟨p, hp, rfl⟩
+
+theorem sig_thr_decide (n N : Nat) : sigmgr_CheckSigns1 (n : Int) (N : Int) = decide ((2 * N + 2) / 3 ≤ n) := by
+  by_cases h : (2 * N + 2) / 3 ≤ n
+  · simp only [h, (sthr_iff n N).2 h, decide_true]
+  · cases hb : sigmgr_CheckSigns1 (n : Int) (N : Int) with
+    | false => simp only [h, decide_false]
+    | true => exact absurd ((sthr_iff n N).1 hb) h
 
 theorem sigCore_spec (info : Bool × List (Addr × Bytes)) (cons : List Addr) (a : Addr) (sg : Bytes) (hn : cons.Nodup) (ha : a ∈ cons) :
     (sigCore info cons a sg).2 = (decide ((2 * cons.length + 2) / 3 ≤ approvedBy cons (info.2.map (·.1) ++ [a])) && !info.1) ∧
     (sigCore info cons a sg).1.1 = (info.1 || decide ((2 * cons.length + 2) / 3 ≤ approvedBy cons (info.2.map (·.1) ++ [a]))) ∧
     (∀ x, x ∈ (sigCore info cons a sg).1.2.map (·.1) ↔ x ∈ info.2.map (·.1) ++ [a]) := by
   unfold sigCore
+  simp only [sig_thr_decide]
   by_cases hv : a ∈ info.2.map (·.1)
   · have hc : sigHas info.2 a = true := (sigHas_iff _ _).2 hv
     simp only [hc, Bool.not_true, Bool.false_eq_true, if_false, Nat.add_zero]
     have hcount : countIn cons (info.2.map (·.1)) = approvedBy cons (info.2.map (·.1) ++ [a]) := by
       rw [← countIn_eq_approvedBy, countIn_append_old cons _ a hv]
-    have hq : sigmgr_CheckSigns1 (countIn cons (info.2.map (·.1)) : Nat) (cons.length : Nat)
-        = decide ((2 * cons.length + 2) / 3 ≤ approvedBy cons (info.2.map (·.1) ++ [a])) := by
-      rw [← hcount]
-      by_cases h : (2 * cons.length + 2) / 3 ≤ countIn cons (info.2.map (·.1))
-      · simp [h, (sthr_iff _ _).2 h]
-      · have : ¬ sigmgr_CheckSigns1 (countIn cons (info.2.map (·.1)) : Nat) (cons.length : Nat) = true := fun e => h ((sthr_iff _ _).1 e)
-        simp [h, this]
-    refine ⟨by rw [hq], by rw [hq], ?_⟩
+    rw [hcount]
+    refine ⟨rfl, rfl, ?_⟩
     intro x; simp only [List.mem_append, List.mem_singleton]
     constructor
     · intro h; exact Or.inl h
@@ -182,16 +181,8 @@ theorem sigCore_spec (info : Bool × List (Addr × Bytes)) (cons : List Addr) (a
     simp only [hc, Bool.not_false, if_true]
     have hcount : countIn cons (info.2.map (·.1)) + 1 = approvedBy cons (info.2.map (·.1) ++ [a]) := by
       rw [← countIn_eq_approvedBy, countIn_append_fresh cons _ a hn ha hv]
-    have hthr := sthr_iff (countIn cons (info.2.map (·.1)) + 1) cons.length
-    push_cast at hthr
-    have hq : sigmgr_CheckSigns1 ((countIn cons (info.2.map (·.1)) : Nat) + 1) (cons.length : Nat)
-        = decide ((2 * cons.length + 2) / 3 ≤ approvedBy cons (info.2.map (·.1) ++ [a])) := by
-      rw [← hcount]
-      by_cases h : (2 * cons.length + 2) / 3 ≤ countIn cons (info.2.map (·.1)) + 1
-      · simp [h, hthr.2 h]
-      · have : ¬ sigmgr_CheckSigns1 ((countIn cons (info.2.map (·.1)) : Nat) + 1) (cons.length : Nat) = true := fun e => h (hthr.1 e)
-        simp [h, this]
-    refine ⟨by rw [hq], by rw [hq], ?_⟩
+    rw [hcount]
+    refine ⟨rfl, rfl, ?_⟩
     intro x; simp
 
 /-- The signature ledger emits exactly where the property's count says. -/
@@ -249,5 +240,30 @@ theorem sigSpec_once (emitted : Bool) (acc : List Addr) (evs : List (Addr × Byt
       · by_cases hq : (2 * cons.length + 2) / 3 ≤ approvedBy cons (acc ++ [a])
         · simp only [hq, decide_true, Bool.not_false, Bool.and_true, Bool.or_true, countTrue, sigSpec_emitted_silent]; omega
         · simp only [hq, decide_false, Bool.false_and, Bool.or_false, countTrue]; exact ih false _
+
+/-! ### the transactions -/
+
+def voteEntry (s : State) (id : Bytes) : Bool × List Addr := (alGet s.votes id).getD (false, [])
+def sigEntry (H : Bytes → Bytes) (s : State) (subject : Bytes) : Bool × List (Addr × Bytes) := (alGet s.sigs (H subject)).getD (false, [])
+
+/-- Only a vote on `id` changes the vote ledger entry `id`; only a signature on the subject changes its entry. -/
+theorem votes_sigs_frame (H : Bytes → Bytes) (s : State) (op : Op) (id : Bytes)
+    (hv : ∀ a, op ≠ .vote id a) : alGet (step H s op).votes id = alGet s.votes id := by
+  apply step_preserves H (fun t => alGet t.votes id = alGet s.votes id) s op
+  · intro t x ht; exact ht
+  · intro o ho _
+    cases op <;> plan_cases ho
+    all_goals try rfl
+    all_goals try (rename_i hcd; rw [commit_frame hcd]; done)
+    all_goals (simp only; rw [alGet_put_ne]; intro e; subst e; exact hv _ rfl)
+  · intro ap hap s1 s2 n _ hs1 hf
+    cases op <;> plan_cases hap
+    all_goals (dsimp only at hf)
+    all_goals try (rw [blackEffect_frame hf]; exact hs1; done)
+    all_goals try (obtain ⟨akb, _, he⟩ := candidateEffect_shape hf; rw [he]; exact hs1; done)
+    all_goals try (split at hf)
+    all_goals try (cases hf; done)
+    all_goals (injection hf with hf; injection hf with hf1 hf2; subst hf1; exact hs1)
+  · rfl
 
 end Poly.Model.Gov
